@@ -550,13 +550,14 @@ class SramMonitor:
                 self.skip = True
                 if we and not I.read_only:
                     self.mem = [None] * I.depth
+                    self.stage = [None] * (I.cpm - 1)
             else:
                 if we and not I.read_only:
                     if sub == I.cpm - 1:
                         v = dat & ((1 << I.bw) - 1)
                         for k, s in enumerate(reversed(self.stage)):
-                            v |= s << ((k + 1) * I.bw)
-                        self.mem[w] = v & ((1 << I.width) - 1)
+                            v = None if (v is None or s is None) else v | (s << ((k + 1) * I.bw))
+                        self.mem[w] = None if v is None else v & ((1 << I.width) - 1)
                     else:
                         self.stage[sub] = dat & ((1 << I.bw) - 1)
                 self.pending = (w, sub)
